@@ -530,7 +530,10 @@ def plan(tier):
                  variants=['plain', 'qtree', 'brect', 'bpoly', 'guess0', 'guess4', 'guess8', 'cols:even', 'qtree+guess2', 'cols:odd+guess3+brect'],
                  compare=['plain', 'qtree', 'guess6', 'bpoly', 'cols:firsthalf'], block=(2, [False, True])),
             dict(geo='mix5', ncols=None, nx=2, ny=2,
-                 variants=['plain', 'qtree', 'brect', 'bpoly', 'guess0', 'guess3', 'guess4', 'cols:odd'],
+                 variants=['plain', 'qtree', 'brect', 'bpoly', 'guess0', 'guess3', 'guess4', 'cols:odd'] +
+                          # a guess together with a column subset that leaves out some of the guess's neighbours
+                          # (overlapping bounding boxes on this mesh): every guess x even/odd subset
+                          ['cols:%s+guess%d' % (t, g) for g in range(5) for t in ('even', 'odd')],
                  compare=['plain', 'qtree', 'guess1', 'brect'], block=(2, [False, True])),
             dict(geo='rot37', ncols=None, nx=3, ny=3, variants=['plain', 'qtree', 'guess4'], compare=None, block=None),
             dict(geo='g7sub', ncols=10, nx=3, ny=3, variants=['plain', 'qtree'], compare=None, block=None),
@@ -541,13 +544,15 @@ def plan(tier):
                        'cols:odd+guess3+brect', 'cols:even+guess4+bpoly'],
              compare=['plain', 'qtree', 'guess6', 'bpoly', 'cols:firsthalf', 'brect'], block=(3, [False, True])),
         dict(geo='mix5', ncols=None, nx=2, ny=2,
-             variants=['plain', 'qtree', 'brect', 'bpoly', GUESS_ALL, 'cols:odd', 'cols:even', 'qtree+guess1', 'cols:even+guess2+brect'],
+             variants=['plain', 'qtree', 'brect', 'bpoly', GUESS_ALL, 'cols:odd', 'cols:even', 'qtree+guess1', 'cols:even+guess2+brect'] +
+                      ['cols:%s+guess%d' % (t, g) for g in range(5) for t in ('even', 'odd', 'firsthalf', 'lasthalf')],
              compare=['plain', 'qtree', 'guess1', 'brect', 'bpoly'], block=(3, [False, True])),
         dict(geo='rot37', ncols=None, nx=4, ny=4,
              variants=['plain', 'qtree', 'brect', 'bpoly', GUESS_ALL, 'cols:even', 'cols:odd', 'qtree+guess0'],
              compare=['plain', 'qtree', 'guess8'], block=(2, [False, True])),
         dict(geo='g7sub', ncols=16, nx=4, ny=4,
-             variants=['plain', 'qtree', 'brect', 'bnodes', 'guess0', 'guess9', 'cols:even', 'qtree+guess12'],
+             variants=['plain', 'qtree', 'brect', 'bnodes', 'guess0', 'guess9', 'cols:even', 'qtree+guess12'] +
+                      ['cols:%s+guess%d' % (t, g) for g in (0, 3, 5, 9, 12) for t in ('even', 'odd')],
              compare=None, block=(1, [True])),
         dict(geo='g2sub', ncols=12, nx=4, ny=4,
              variants=['plain', 'qtree', 'bnodes', 'guess0', 'guess6', 'cols:even'],
@@ -788,7 +793,9 @@ def track_tasks():
             orng = (outer[2], outer[3]) if orient == 'h' else (outer[0], outer[1])
             srng = (outer[0], outer[1]) if orient == 'h' else (outer[2], outer[3])
             ocuts = [orng[0]] + list(oco) + [orng[1]]
-            scuts = [srng[0]] + list(sco) + [srng[1]]
+            # (also lines that start far outside the grid: up to a million grid widths before it)
+            far = srng[0] - (srng[1] - srng[0]) * 10 ** 4
+            scuts = ([far] if geo == 'rect31' else []) + [srng[0]] + list(sco) + [srng[1]]
             for i in range(len(ocuts) - 1):
                 for j in range(len(scuts) - 1):
                     tasks.append((task_track, dict(geo=geo, orient=orient, obox=(ocuts[i], ocuts[i + 1]), sbox=(scuts[j], scuts[j + 1]),
